@@ -420,12 +420,21 @@ impl<'p> World<'p> {
     }
 
     pub fn run(&mut self) {
+        crate::envseam::set_answer(self.plan.env.as_deref());
+        crate::envseam::take_queries();
+        if self.plan.env.is_some() {
+            self.stats.bump("fault:env:unset-variables-answered");
+        }
         for i in 0..self.plan.steps.len() {
             self.cur = i;
             let step = self.plan.steps[i].clone();
             self.obs(&format!("step {i} {}", step.op_name()));
             self.apply(i, &step);
+            for name in crate::envseam::take_queries() {
+                self.stats.bump(&format!("probe:env-variable-read-inside-a-library-call:{name}"));
+            }
         }
+        crate::envseam::set_answer(None);
     }
 
     pub fn apply(&mut self, idx: usize, step: &Step) {
